@@ -157,6 +157,47 @@ def scan_ram_writers_refresh(repo):
     return dict(status="ok", obligation=ob, detail="")
 
 
+def scan_asset_reads(repo):
+    """C16 frame obligation: emulator code takes bytes from a host asset only through read_exact (whose
+    contract - exactly the next bytes, whatever short-read pattern the host chooses - is proved in unit
+    hostio). A direct `asset.read(&mut buf)` makes the bytes seen depend on how the host chunks its reads."""
+    import glob, sys
+    sys_path = os.path.join(VERIF, "vx")
+    if sys_path not in sys.path:
+        sys.path.insert(0, sys_path)
+    from rustlex import mask
+    ob = "scan::no direct LoadableAsset::read(&mut buf) call outside host/io.rs (assets are read through read_exact only)"
+    bad, unknown, seen_exact = [], [], 0
+    for path in glob.glob(os.path.join(repo, "rustzx-core/src", "**", "*.rs"), recursive=True):
+        src = open(path).read()
+        msk = mask(src)
+        seen_exact += len(re.findall(r"\.\s*read_exact\s*\(", msk))
+        if path.endswith(os.path.join("host", "io.rs")):
+            continue
+        for m in re.finditer(r"\.\s*read\s*\(\s*&\s*mut\b", msk):
+            fns = [x for x in re.finditer(r"\bfn\s+(\w+)", msk[:m.start()])]
+            where = "%s::%s" % (os.path.relpath(path, repo), fns[-1].group(1) if fns else "?")
+            # is the byte count thrown away (`..read(&mut b)?;`, `let _ = ..`)? then the short-read case is
+            # certainly not handled; a call whose count is used needs a contract of its own (undecided)
+            from rustlex import match_close
+            close = match_close(msk, msk.index("(", m.start()))
+            tail = msk[close + 1:close + 12].replace(" ", "").replace("\n", "")
+            ls = msk.rfind("\n", 0, m.start()) + 1
+            head = msk[ls:m.start()]
+            if tail.startswith("?;") or tail.startswith(";") or re.search(r"\blet\s+_\s*=", head):
+                bad.append(where)
+            else:
+                unknown.append(where)
+    if unknown and not bad:
+        return dict(status="undecided", obligation=ob, detail="direct read() whose byte count is used - needs a contract: %s" % sorted(set(unknown)))
+    if seen_exact == 0:
+        return dict(status="undecided", obligation=ob, detail="no read_exact call found at all (lost anchor)")
+    if bad:
+        return dict(status="fail", obligation=ob, detail="asset bytes taken with a bare read() (result depends on the host's "
+                    "read chunking) in: %s" % sorted(set(bad)))
+    return dict(status="ok", obligation=ob, detail="")
+
+
 def scan_refresh_banks(repo):
     """quick syntactic stand-in for K-core::screen (thorough): refresh_memory_dependent_devices feeds
     the screen shadow from RAM bank 0 on the 48K and from banks 5 AND 7 on the 128K"""
@@ -683,10 +724,10 @@ PROPS = {
     ),
     "C16": dict(
         level="proof",
-        claim="The relational statement is decided through the unary contract that implies it: Verus proves on the real Emulator::emulate_frames (with the real ZXController struct, take_events, take_last_emulation_error, reset_frame_counter, process_fast_load_event, EmulationEvents::take) that for EVERY emulation mode, time limit and sequence of stopwatch readings one call performs exactly k+1 applications of ONE machine-step function `substep` (CPU step; pending error; events; fast load before a breakpoint stop) to the machine state (CPU, controller without the host-side frame counter, fast-load switch) and nothing else, stopping early only for the reason it reports; lemma_run_compose then gives slicing independence (a steps then b steps = a+b steps) for frames-per-call, max speed, timeouts and breakpoint stop/resume. reset_frame_counter changes only the frame counter (whole-struct postcondition). LoadableAsset::read_exact delivers exactly the next bytes of the stream for every short-read pattern of the host asset; ZXMixer::pop only removes the head of the sample queue. Source scans discharge the syntactic frame obligations: no nondeterminism source in the emulation crates and the stopwatch is read only by emulate_frames; the frame counter is read only by frames_count/emulate_frames; sound_enabled is read only by have_sound and the mixer is only fed or drained outside zx/sound.",
+        claim="The relational statement is decided through the unary contract that implies it: Verus proves on the real Emulator::emulate_frames (with the real ZXController struct, take_events, take_last_emulation_error, reset_frame_counter, process_fast_load_event, EmulationEvents::take) that for EVERY emulation mode, time limit and sequence of stopwatch readings one call performs exactly k+1 applications of ONE machine-step function `substep` (CPU step; pending error; events; fast load before a breakpoint stop) to the machine state (CPU, controller without the host-side frame counter, fast-load switch) and nothing else, stopping early only for the reason it reports; lemma_run_compose then gives slicing independence (a steps then b steps = a+b steps) for frames-per-call, max speed, timeouts and breakpoint stop/resume. reset_frame_counter changes only the frame counter (whole-struct postcondition). LoadableAsset::read_exact delivers exactly the next bytes of the stream for every short-read pattern of the host asset, and the emulator takes asset bytes through read_exact only (scan asset_reads); ZXMixer::pop only removes the head of the sample queue. Source scans discharge the syntactic frame obligations: no nondeterminism source in the emulation crates and the stopwatch is read only by emulate_frames; the frame counter is read only by frames_count/emulate_frames; sound_enabled is read only by have_sound and the mixer is only fed or drained outside zx/sound.",
         note="Bit-identical repeat runs follow from every function being a function of its inputs (safe Rust + the nondeterminism scan) - assumed as Rust semantics, not proved. Z80::emulate and fast_load_tap enter as uninterpreted functions of the machine state (what they compute is C01-C03/C10). Not covered: gzip-wrapped assets (flate2), audio sample values with sound on/off (no audio is delivered when sound is off), host inputs applied mid-frame.",
         verus=["ctl", "hostio", "mixer"],
-        scans=[scan_passed_frames, scan_nondeterminism, scan_sound_flows],
+        scans=[scan_passed_frames, scan_nondeterminism, scan_sound_flows, scan_asset_reads],
         kani=[K_BREAK],
         explanation="slicing independence = emulate_frames is an iterate of one step function (unary functional contract) + composition lemma",
         technique="contract-based deductive verification: Verus contracts on the real emulate_frames/controller/host-io code + composition lemma; syntactic frame scans",
